@@ -194,7 +194,7 @@ def ops_oracle(mods, base, aux, ops, base_pipe, core_oracle):
                 probs.append((None, '%s: the resulting LegPipe cannot be inspected: %s' % (tag, X['pipe_error'])))
                 continue
             r = resolve_pipe(base_pipe, X['pipe'])
-            if not r['attrs_ok'] or not r['legs_plain']:
+            if not r['attrs_ok'] or r['legs_plain'] != base.get('legs_plain', True):
                 probs.append((None, '%s: nlegs/subshape/subqshape/chinfo of the resulting pipe do not describe its stored legs' % tag))
             case2 = {'mods': mods, 'legs': r['legs'], 'qconj': r['qconj'], 'sort': False, 'bunch': False}
             for key, text in core_oracle(case2, r):
